@@ -157,12 +157,12 @@ Definition all_same_res (l : list rres) : bool :=
   match l with [] => true | x :: r => forallb (rres_sim x) r end.
 
 (* concurrent first Gets of one name: one client for everybody, one Auto change, and it is the one remembered *)
-Definition sched_ok (g : cfg) (pre : list rop) (ths : list tkind) (obs : list rres) (log : list change)
+Definition sched_ok (g : cfg) (first : Z) (pre : list rop) (ths : list tkind) (obs : list rres) (log : list change)
            (final : list (string * client)) : bool :=
   match same_get_name ths with
   | None => true
   | Some n =>
-      let '(p0, _) := prun g (mkP pempty [] 1) pre in
+      let '(p0, _) := prun g (mkP pempty [] first) pre in
       match pm p0 n, invoke_fb g n with
       | None, None =>
           let auto := count_auto n (skipn (List.length (plog p0)) log) in
@@ -222,7 +222,8 @@ Fixpoint nodup_changes (l : list change) : bool :=
    not the order in which callbacks of different threads arrive.
    - the callbacks of the sequential prefix (one committer: program order) are the prefix's log, in order;
    - every mutating call reported exactly its own transition, once (cb_multiset_ok, from the results alone);
-   - nothing is reported twice;
+   - nothing is reported twice unless it was committed twice (three overlapping Add(n, c) of one
+     client commit {n, c, c} twice: C12_cb_report_twice_needs_commit_twice);
    - all calls having returned (nothing committed is still unreported), the callbacks are a
      permutation of the transition log (commit order; taken from RouterCb.v's run of the same
      schedule, the harness cannot see commits) -- C12_callbacks_are_transitions;
@@ -235,10 +236,10 @@ Definition cb_ok (g : cfg) (first : Z) (pre : list rop) (ths : list tkind) (sche
   let '(s0, _) := rrun g (init first) pre in
   let G := cgrun g ths sched (cginit s0 ths) in
   let newcbs := skipn (List.length (plog p0)) cbs in
-  sched_ok g pre ths obs cbs final
+  sched_ok g first pre ths obs cbs final
   && list_eqb change_eqb (firstn (List.length (plog p0)) cbs) (plog p0)
   && cb_multiset_ok g ths obs newcbs
-  && nodup_changes newcbs
+  && implb (nodup_changes (slog (cst G))) (nodup_changes newcbs)
   && perm_eqb cbs (slog (cst G)).
 
 Definition wres_sim (a b : wres) : bool :=
@@ -333,7 +334,7 @@ Definition C12_ok (c : c12case) : bool :=
       | Some s => list_eqb change_eqb log (plog s)
       | None => false
       end
-  | KSched g first pre ths sched obs log final => sched_ok g pre ths obs log final
+  | KSched g first pre ths sched obs log final => sched_ok g first pre ths obs log final
   | KSchedCb g first pre ths sched obs cbs final => cb_ok g first pre ths sched obs cbs final
   | KRegW o ops obs log => regw_ok o ops obs log
   | KRouteW o fe ae ops obs log => routew_ok o ops obs log
@@ -353,10 +354,20 @@ Definition type_wf (t : mtype) : bool := zlen (filter named (tfields t)) <=? 1.
 Definition steps_wf (steps : list dstep) : bool := forallb (fun s => type_wf (snd (fst s))) steps.
 Definition recvd_wf (rs : list recvd) : bool := forallb (fun r => type_wf (snd (fst r))) rs.
 
+(* hypothesis of the schedule theorems: client identities are non-nil (the factory's identities
+   start above 0; no Add(name, nil) -- the generated routers refuse it, and with a stored nil a
+   Remove returns nil although it removed something, so the per-call oracle of cb_ok would not
+   apply).  The harness never generates such a schedule case; if it did, it would be reported. *)
+Definition sched_guard (first : Z) (pre : list rop) (ths : list tkind) : bool :=
+  (0 <? first)
+  && forallb (fun o => match o with OAdd _ c => negb (c =? nil_client) | _ => true end) pre
+  && forallb (fun k => match k with TAdd _ c => negb (c =? nil_client) | _ => true end) ths.
+
 Definition C12_guard (c : c12case) : bool :=
   match c with
   | KDefaultSeq _ steps _ => steps_wf steps
   | KStreamSession _ rs _ => recvd_wf rs
+  | KSched _ first pre ths _ _ _ _ | KSchedCb _ first pre ths _ _ _ _ => sched_guard first pre ths
   | _ => true
   end.
 
